@@ -72,6 +72,13 @@ Theorem sample_mapping_individuals : forall nodes ni ploidy inds groups,
   /\ Forall (fun g => g <> [] /\ uniform_flags nodes g) groups.
 Proof. exact mapping_individuals. Qed.
 
+(* by default: the individuals referred to by sample nodes, each once, by increasing id. *)
+Theorem sample_mapping_default : forall nodes ni,
+  (forall u0 us, unique_sorted (map (node_individual nodes) (sample_ids nodes)) = u0 :: us -> u0 <> -1 ->
+     make_sample_mapping nodes ni None None = groups_of_individuals nodes ni (u0 :: us))
+  /\ (forall l, strictly_sorted (unique_sorted l) /\ (forall y, In y (unique_sorted l) <-> In y l)).
+Proof. exact (fun nodes ni => conj (mapping_default_individuals nodes ni) unique_sorted_spec). Qed.
+
 (* Masked sites influence neither the output nor whether an error is raised:
    two inputs that agree on everything except the content (position, alleles,
    genotypes, sample-mask row) of MASKED sites behave identically — repaired check; *)
